@@ -32,6 +32,8 @@ CLAIMED.update({
          "kernels: for-all within N (quoted 6/12, HTML 3/6); structure: one representative per path, Graphviz 2.43 as acceptance oracle; hostile label/value texts from a catalogue; one known finding (top-level node drawn inside a bundle cluster)"),
  "C14": ("path-complete exploration of prov_to_graph / graph_to_prov: the solver enumerates every combination of relation kind, declared / undeclared / coinciding endpoints, one-ended relations, identified relations, repeated identifiers and two element kinds under one identifier within the bounds; on each path the real networkx graph is checked (nodes, inferred nodes, one directed edge per two-ended relation, inverse conversion = unified elements + those relations, strict multiset)", "4/C14",
          "PATH_COMPLETE: names are concrete catalogue values (networkx hashes nodes); bounds: 3-5 elements, <=2 relations (15 kinds alone, 4 pairs; all 120 pairs in thorough)"),
+ "C17": ("symbolic execution of the real ProvDocument.serialize with a symbolic destination name over in-memory OS stand-ins: the solver yields one file name per path of the name handling (stdlib urlparse traced too); every witness is replayed on the real file system x 4 formats x 5 fault points (k-th stream write, final move) x with/without pre-existing file with fault-injecting proxies, checking exact target, completeness, no stray files and all-or-nothing", "4/C17",
+         "PATH_COMPLETE w.r.t. the name handling; fault model: the default temp dir is another device (copy not atomic, rename fails with EXDEV), atomic rename either happens or not; names of 1-3 (quick) / 1-4 (thorough) code points"),
 })
 NA = {}
 props = [json.loads(l) for l in open(os.path.join(V, "properties.jsonl"))]
